@@ -194,7 +194,27 @@ def match_finding(prop, failure, findings):
 
 # ------------------------------------------------------------------------------------------
 
+def jsonable(x):
+    """make any case record serialisable (tuple keys, numpy scalars, Fractions, …)"""
+    if isinstance(x, dict):
+        return {(k if isinstance(k, (str, int, float, bool)) or k is None else str(k)): jsonable(v) for k, v in x.items()}
+    if isinstance(x, (list, tuple, set)):
+        return [jsonable(v) for v in x]
+    if isinstance(x, (str, int, float, bool)) or x is None:
+        return x
+    try:
+        import numpy
+        if isinstance(x, numpy.generic):
+            return x.item()
+        if isinstance(x, numpy.ndarray):
+            return x.tolist()
+    except Exception:  # noqa: BLE001
+        pass
+    return str(x)
+
+
 def write_json(path, obj):
+    obj = jsonable(obj)
     os.makedirs(os.path.dirname(path), exist_ok=True)
     tmp = path + ".tmp"
     with open(tmp, "w") as fh:
